@@ -236,7 +236,7 @@ def lock_order(ctx, rule='C09.lock-order'):
     ctx.stats['lock_order_edges'] = sorted('%s(%s)->%s(%s)' % (a[0], a[1], b[0], b[1]) for (a, b) in edges)
     nacq = sum(len(L.info(f).sites) for f in F.fns)
     ctx.stats['lock_acquisition_sites'] = nacq
-    f = floor(rule, 'lock acquisition sites on DBInner locks', nacq, 10) or floor(rule, 'lock-order edges', len(edges), 6)
+    f = floor(rule, 'lock acquisition sites on DBInner locks', nacq, 5) or floor(rule, 'lock-order edges', len(edges), 4)
     if f:
         res.append(f)
     # cycle detection over lock names (a shared acquisition conflicts with an exclusive one: std RwLock may block
